@@ -519,7 +519,13 @@ pub fn run_case(c: &Case) -> Outcome {
                 out.violate(v("an injected payload changed the event sequence", format!("node {}: {:?} vs {:?}; last injections {:?}", a.addr, ev_kinds(a), ev_kinds(b), last_inj), a.addr, w.end_t));
                 break;
             }
-            if b.reached_target_at.is_some() && a.reached_target_at.is_none() && !a.is_spec {
+            // a run that is merely slower (window 1 on a lossy link) may hit the virtual time cap a few
+            // frames short of the target: only a session that stopped advancing is a violation
+            let still_advancing = w.frames_between(a.idx, w.end_t.saturating_sub(3000 * MS), w.end_t) >= 3;
+            if b.reached_target_at.is_some() && a.reached_target_at.is_none() && !a.is_spec && still_advancing {
+                out.count("runs_slower_than_their_twin_but_advancing", 1);
+            }
+            if b.reached_target_at.is_some() && a.reached_target_at.is_none() && !a.is_spec && !still_advancing {
                 out.violate(v("valid traffic is no longer processed after the injected packets", format!("node {} stopped at frame {} (run without injection reached {}); last injections {:?}", a.addr, a.game.frame(), b.game.frame(), last_inj), a.addr, w.end_t));
                 break;
             }
